@@ -273,7 +273,10 @@ def _deliver(fn, arg, lines: list[str], budget: list[int], keep: "sd.Retain | No
         except StopIteration:
             return True
         except StreamProtocolParseError as e:
-            lines.append(sd.err_line(e))
+            if keep is not None:
+                keep.add_err(e, lines)
+            else:
+                lines.append(sd.err_line(e))
         except Exception as e:  # noqa: BLE001
             lines.append(f"escape {type(e).__name__}")
             return False
